@@ -1712,7 +1712,7 @@ class SupplyChainNode(object):
 				# Leave a note to the decoder indicating which type of dict this is.
 				the_attr = None if getattr(self, attr) is None else getattr(self, attr)
 				if is_dict(the_attr):
-					node_dict[attr] = {k: v.to_dict() for k, v in the_attr.items()}
+					node_dict[attr] = {k: (None if v is None else v.to_dict()) for k, v in the_attr.items()}
 					node_dict[attr]['dict_type'] = 'product_keyed_attribute'
 				elif the_attr is None:
 					node_dict[attr] = None
@@ -1814,7 +1814,7 @@ class SupplyChainNode(object):
 						if 'dict_type' in the_dict[attr_name] and the_dict[attr_name]['dict_type'] == 'product_keyed_attribute':
 							# Attribute is product-keyed dict; convert keys to int (they were probably
 							# saved as strings) and undictify objects.
-							value = {int(k): demand_source.DemandSource.from_dict(v) for k, v in the_dict[attr_name].items() if k != 'dict_type'}
+							value = {int(k): (None if v is None else demand_source.DemandSource.from_dict(v)) for k, v in the_dict[attr_name].items() if k != 'dict_type'}
 						else:
 							value = demand_source.DemandSource.from_dict(the_dict[attr_name])
 					else:
@@ -1824,7 +1824,7 @@ class SupplyChainNode(object):
 						value = None
 					elif attr_name in the_dict:
 						if 'dict_type' in the_dict[attr_name] and the_dict[attr_name]['dict_type'] == 'product_keyed_attribute':
-							value = {int(k): disruption_process.DisruptionProcess.from_dict(v) for k, v in the_dict[attr_name].items() if k != 'dict_type'}
+							value = {int(k): (None if v is None else disruption_process.DisruptionProcess.from_dict(v)) for k, v in the_dict[attr_name].items() if k != 'dict_type'}
 						else:
 							value = disruption_process.DisruptionProcess.from_dict(the_dict[attr_name])
 					else:
@@ -1834,7 +1834,7 @@ class SupplyChainNode(object):
 						value = None
 					elif attr_name in the_dict:
 						if 'dict_type' in the_dict[attr_name] and the_dict[attr_name]['dict_type'] == 'product_keyed_attribute':
-							value = {int(k): policy.Policy.from_dict(v) for k, v in the_dict[attr_name].items() if k != 'dict_type'}
+							value = {int(k): (None if v is None else policy.Policy.from_dict(v)) for k, v in the_dict[attr_name].items() if k != 'dict_type'}
 							for k in value:
 								value[k].node = node
 						else:
